@@ -5,7 +5,7 @@
 * `sched` is the schedule task of spec/sys/Executor.tla: task i returns Res(i, 0) = 1000 * i, logs Start/End records
   (pid + per-process sequence number + monotonic time) and finishes only after its predecessor in the TLC-generated
   completion order has finished (a turnstile on marker files: it sleeps in 0.5 ms steps until the predecessor's
-  marker exists).  The turnstile realises exactly the completion order chosen by TLC, independent of machine load.
+  marker exists; it gives way when the real execution made the intended order infeasible).  The turnstile realises exactly the completion order chosen by TLC, independent of machine load.
 """
 import itertools
 import json
@@ -55,7 +55,7 @@ TAKES_K = {"subk", "sqk"}
 # ----------------------------------------------------------------------------- turnstile + event log
 _seq = itertools.count(1)
 _lock = threading.Lock()
-WAIT_S = float(os.environ.get("VERIF_TURNSTILE_WAIT", "20"))
+WAIT_S = float(os.environ.get("VERIF_TURNSTILE_WAIT", "60"))
 
 
 def log_event(d, rec):
@@ -69,19 +69,32 @@ def log_event(d, rec):
             os.close(fd)
 
 
-def marker(d, run, i):
-    return os.path.join(d, f"end_{run}_{i}")
+def rundir(d, run):
+    p = os.path.join(d, f"r{run}")
+    os.makedirs(p, exist_ok=True)
+    return p
 
 
-def turnstile(d, run, pred):
-    """Sleep until task `pred` of run `run` has finished (pred = 0: nobody to wait for).  True iff it did in time."""
+def turnstile(d, run, i, pred, w):
+    """Mark task i of run `run` as started, then sleep until task `pred` has finished (pred = 0: nobody to wait for).
+    -> True iff the predecessor finished first.  Gives up (False) when the intended order has become infeasible in the
+    real execution: all w workers hold unfinished tasks and the predecessor has not even started (it can only start when
+    one of the waiting tasks gives way), or after WAIT_S seconds."""
+    rd = rundir(d, run)
+    open(os.path.join(rd, f"s{i}"), "w").close()
     if not pred:
         return True
-    m = marker(d, run, pred)
+    m, ps = os.path.join(rd, f"e{pred}"), os.path.join(rd, f"s{pred}")
     t_end = time.monotonic() + WAIT_S
+    k = 0
     while not os.path.exists(m):
-        if time.monotonic() > t_end:
-            return False
+        k += 1
+        if k % 20 == 0:
+            if time.monotonic() > t_end:
+                return False
+            names = os.listdir(rd)
+            if sum(x[0] == "s" for x in names) - sum(x[0] == "e" for x in names) >= w and not os.path.exists(ps):
+                return os.path.exists(m)
         time.sleep(0.0005)
     return True
 
@@ -89,16 +102,16 @@ def turnstile(d, run, pred):
 def finish(d, run, i, v, ok=True, **extra):
     """Record End(i) and release the successor."""
     t = time.monotonic_ns()
-    open(marker(d, run, i), "w").close()
+    open(os.path.join(rundir(d, run), f"e{i}"), "w").close()
     log_event(d, dict(extra, run=run, e="e", i=i, v=v, t=t, waited=ok))
 
 
 def sched(i, tok):
-    """Schedule task: tok = '<dir>|<run>|<pred>'."""
-    d, run, pred = tok.split("|")
+    """Schedule task: tok = '<dir>|<run>|<pred>|<workers>'."""
+    d, run, pred, w = tok.split("|")
     log_event(d, {"run": run, "e": "s", "i": i, "t": time.monotonic_ns()})
     v = 1000 * i
-    ok = turnstile(d, run, int(pred))
+    ok = turnstile(d, run, i, int(pred), int(w))
     finish(d, run, i, v, ok)
     return v
 
